@@ -38,6 +38,10 @@ var c14Pool = []c14Op{
 	{Name: "alias-a", Q: "{ a: echo }"},
 	{Name: "alias-b", Q: "{ b: echo }"},
 	{Name: "cross", Q: "{ n1s { name phone } }"},
+	{Name: "cross-with-id", Q: "{ n1s { id name phone } }"}, // the text the planner turns "cross" into
+	{Name: "var-Int-omitted", Q: "query ($v: Int) { both(x: $v) }", Vars: map[string]interface{}{}},
+	{Name: "child-var", Q: "query ($x: Int) { n2 { owner { calc(x: $x) } } }", Vars: map[string]interface{}{}},
+	{Name: "child-var-3", Q: "query ($x: Int) { n2 { owner { calc(x: $x) } } }", Vars: map[string]interface{}{"x": 3}},
 	{Name: "two-ops-X", Q: "query X { echo(x: 1) } query Y { n2 { title } }", Op: "X"},
 	{Name: "two-ops-Y", Q: "query X { echo(x: 1) } query Y { n2 { title } }", Op: "Y"},
 }
@@ -180,8 +184,8 @@ func c14ConcHarness(cached *gwHarness, want map[string]string, c1, c2 []int, ttl
 func init() {
 	Specs["C14"] = &Spec{
 		ID: "C14",
-		Rule: "sequential: every request history of length <=3 (thorough 4) over an alphabet of 15 operations built to collide in the cache key (pairs differing only in operation type, name, variable type, variable default, variable value, " +
-			"fragment body, alias, selected operation of a two-operation document; one unrelated) plus `tick` (clock jumps past the TTL), for TTL in {0, 1s, 1h}; each history is replayed on a fresh caching gateway and on a plain twin under the virtual clock " +
+		Rule: "sequential: every request history of length <=3 (thorough 4) over an alphabet of 19 operations built to collide in the cache key (pairs differing only in operation type, name, variable type, variable default, variable value, " +
+			"fragment body, alias, selected operation of a two-operation document, explicit vs injected id, variable present vs omitted; one unrelated) plus `tick` (clock jumps past the TTL), for TTL in {0, 1s, 1h}; each history is replayed on a fresh caching gateway and on a plain twin under the virtual clock " +
 			"and every answer compared. concurrent: two clients with 1-2 requests each from the pool on one caching gateway, every schedule with <=1 (thorough 2) preemption at client granularity (RWMutex operations visible), each answer compared with the plain twin's; " +
 			"non-trivial = history with a repeated or colliding key",
 		Assumptions: []string{"virtual clock owned by vrt (1ms passes between requests)", "subscriptions interleaved with queries are exercised by the C17/C18 harness, not here",
@@ -249,7 +253,7 @@ func init() {
 				panic(name)
 			}
 			pairs := [][2][]int{}
-			names := []string{"q-both", "m-both", "named-A", "named-B", "frag-name", "frag-phone", "alias-a", "alias-b", "cross", "var-Int", "var-Int-v2"}
+			names := []string{"q-both", "m-both", "named-A", "named-B", "frag-name", "frag-phone", "alias-a", "alias-b", "cross", "cross-with-id", "var-Int", "var-Int-v2", "var-Int-omitted"}
 			for i, n1 := range names {
 				for _, n2 := range names[i:] {
 					if n1 == "m-both" && n2 == "m-both" {
